@@ -312,4 +312,43 @@ theorem applySack_nil (cum : UInt32) (gaps : List (UInt16 × UInt16)) (now : Nat
   simp [missingPass]
 
 
+/-- a SACK that covers the first record of the queue and passes the late-SACK filter shortens the queue -/
+theorem covered_head_leaves (r0 : SRec) (rest : List SRec) (cum : UInt32) (gaps : List (UInt16 × UInt16))
+    (now : Nat) (cm : Bool) (mx : Nat) (hcov : i32NonPos (r0.tsn - cum) = true) (hlate : lateSack (r0 :: rest) cum gaps = false) :
+    (applySack (r0 :: rest) cum gaps now cm mx).1.length < (r0 :: rest).length := by
+  simp only [applySack, hlate, Bool.false_eq_true, if_false]
+  have h2 : ∀ (gs : List (UInt16 × UInt16)) (st : List SRec × SackOutcome),
+      (gs.foldl (gapBlockApply now cum) st).1.map (·.tsn) = st.1.map (·.tsn) := by
+    intro gs
+    induction gs with
+    | nil => intro st; rfl
+    | cons g rest ih => intro st; simp only [List.foldl_cons]; rw [ih]; exact gapBlockApply_tsns now cum g st
+  have hlen := congrArg List.length (missingPass_tsns now cm mx (maxReportedOf cum gaps)
+    (gaps.foldl (gapBlockApply now cum) ((r0 :: rest).filter (fun r => !i32NonPos (r.tsn - cum)),
+      ((r0 :: rest).filter (fun r => i32NonPos (r.tsn - cum))).foldl (cumAckRec now) { maxReported := maxReportedOf cum gaps })).1
+    (gaps.foldl (gapBlockApply now cum) ((r0 :: rest).filter (fun r => !i32NonPos (r.tsn - cum)),
+      ((r0 :: rest).filter (fun r => i32NonPos (r.tsn - cum))).foldl (cumAckRec now) { maxReported := maxReportedOf cum gaps })).2)
+  have hlen2 := congrArg List.length (h2 gaps ((r0 :: rest).filter (fun r => !i32NonPos (r.tsn - cum)),
+      ((r0 :: rest).filter (fun r => i32NonPos (r.tsn - cum))).foldl (cumAckRec now) { maxReported := maxReportedOf cum gaps }))
+  simp only [List.length_map] at hlen hlen2
+  rw [hlen, hlen2]
+  apply List.length_filter_lt_length_iff_exists.mpr
+  exact ⟨r0, by simp, by simp [hcov]⟩
+
+
+theorem t3Mark_length (now mx : Nat) : ∀ (q : List SRec) (n : Nat), (t3Mark now mx q n).length = q.length := by
+  intro q
+  induction q with
+  | nil => intro n; rfl
+  | cons r rest ih =>
+    intro n
+    unfold t3Mark
+    split
+    · simp only []
+      split
+      · simp [ih]
+      · split <;> simp [ih]
+    · simp [ih]
+
+
 end RtcModel.Sctp
